@@ -504,6 +504,12 @@ def rule_square_loops(ctx):
 
 RULES = [("filter", rule_filter), ("probe", rule_probe), ("check-mirror", rule_check_mirror), ("castle-pre", rule_castle_pre), ("castle-masks", rule_castle_masks),
          ("castle-moves", rule_castle_moves), ("pawn-table", rule_pawn_table), ("dispatch", rule_dispatch), ("capture-src", rule_capture_src), ("square-loops", rule_square_loops)]
+# what the clauses above take for granted, decided here as well: the attack tables the generators read (C06), make/unmake
+# leaving the position intact around the legality probe (C02), and the bookkeeping that later move generation depends on
+# (castling rights, en-passant file, piece placement: C03)
+RULES += engine.premise_rules("c06", ["rays", "magic", "scheme", "mask-edges", "ray-walk", "leapers", "subset-enum"])
+RULES += engine.premise_rules("c02", ["writeset", "stack", "counter", "ep-restore", "inverse-seq", "probe-pair"])
+RULES += engine.premise_rules("c03", ["revocation-table", "rights-monotone", "ep", "placement"])
 
 
 def run(tier):
